@@ -301,11 +301,42 @@ Proof.
 Qed.
 
 (* ---------- lifting the sweeps ---------- *)
+Lemma spread_ok_cons d nl parts :
+  spread_ok d (nl :: parts) = nodup_nat (map (fun x => canon_idx x mod d) nl) && spread_ok d parts.
+Proof. reflexivity. Qed.
+
+(* the incremental walk certifies every prefix: all partition counts up to rem *)
+Lemma walk_spec d r : forall rem pid ls, walk d r pid rem ls = true ->
+  forall p, p <= rem ->
+  exists ls' parts, fill_parts pid p [] r ls = Ok (ls', parts) /\ (1 <= p -> balanced ls' = true) /\ spread_ok d parts = true.
+Proof.
+  induction rem as [|rem IH]; intros pid ls H p Hp.
+  - assert (p = 0) by lia. subst p. exists ls, []. split; [reflexivity|]. split; [lia|reflexivity].
+  - destruct p as [|p]; [exists ls, []; split; [reflexivity|]; split; [lia|reflexivity]|].
+    simpl in H. rewrite fill_parts_S. cbv zeta.
+    assert (Hnth : nth (N.to_nat pid) (@nil (list (list N))) [] = []) by (destruct (N.to_nat pid); reflexivity).
+    rewrite Hnth.
+    destruct (fill_slots pid [] 0 r ls []) as [[ls1 nl]| |]; try discriminate.
+    apply andb_prop in H. destruct H as [H H3]. apply andb_prop in H. destruct H as [H1 H2].
+    destruct (IH (pid + 1)%N ls1 H3 p ltac:(lia)) as [ls' [parts [E [HB HS]]]].
+    rewrite E. exists ls', (nl :: parts). split; [reflexivity|]. split.
+    + intros _. destruct p as [|p']; [|apply HB; lia]. simpl in E. inversion E; subst. exact H2.
+    + rewrite spread_ok_cons, H1, HS. reflexivity.
+Qed.
+
+Lemma check_walk_spec pmax d k r hm : check_walk pmax d k r hm = true ->
+  forall p, 1 <= p <= pmax -> check_one d k r hm p = true.
+Proof.
+  unfold check_walk, check_one, v2_fill_phase. intros H p Hp. simpl add_olds. rewrite canon_ring_length.
+  destruct (walk_spec d r pmax 0%N _ H p ltac:(lia)) as [ls' [parts [E [HB HS]]]].
+  rewrite E, HB, HS by lia. reflexivity.
+Qed.
+
 Lemma check_dkr_spec pmax d k r : check_dkr pmax d k r = true ->
   forall hm p, hm < d * k -> 1 <= p <= pmax -> check_one d k r hm p = true.
 Proof.
   unfold check_dkr. intros H hm p Hh Hp. rewrite forallb_forall in H.
-  specialize (H hm). rewrite forallb_forall in H. apply H; apply in_seq; lia.
+  apply (check_walk_spec pmax); [|exact Hp]. apply H. apply in_seq. lia.
 Qed.
 
 Lemma forallb_seq_spec (f : nat -> bool) a len : forallb f (seq a len) = true -> forall k, a <= k < a + len -> f k = true.
